@@ -33,6 +33,8 @@ const prop = "C03"
 type Case struct {
 	History hist.History `json:"history"`
 	Bin     bool         `json:"bin,omitempty"`
+	// Branches: names of the base / feature branch and how pint learns the base (nil = main / feature / --base-branch)
+	Branches *hist.Branches `json:"branches,omitempty"`
 	// Filter: the `parser { include / exclude }` configuration the case runs under (nil = none)
 	Filter *Filter `json:"filter,omitempty"`
 }
@@ -465,6 +467,9 @@ func observeBinary(repo *hist.Repo, h hist.History, flt *Filter) (map[string][]O
 	}
 	reports, exit, stderr, err := repo.RunCI(bin, flt.hcl()+markerConfig)
 	if err != nil {
+		if strings.Contains(stderr, "Running from base branch, skipping checks") {
+			return nil, fmt.Errorf("`pint ci` skipped every check claiming to run from the base branch: checked out branch is %q, base branch given as %q (%s)", repo.Names.Head, repo.Names.BaseRef(), repo.Names.BaseVia)
+		}
 		if strings.Contains(stderr, "failed to load config file") {
 			return nil, fmt.Errorf("%w: marker configuration rejected: %s", errHarness, stderr)
 		}
@@ -529,7 +534,11 @@ func judge(h hist.History, flt *Filter, obs map[string][]Obs) (verdict, string, 
 // run builds the repository and applies the oracles. class is the known-finding
 // class a failure falls into ("" = none).
 func run(c Case, ci *hist.CIChecks) (v verdict, class string, err error) {
-	repo, err := hist.Build(c.History)
+	nm := hist.DefaultBranches
+	if c.Branches != nil {
+		nm = *c.Branches
+	}
+	repo, err := hist.BuildNamed(c.History, nm)
 	if err != nil {
 		return verdict{}, "", fmt.Errorf("%w: %v", errHarness, err)
 	}
@@ -813,7 +822,14 @@ func TestPropHistory(t *testing.T) {
 			_, pp.NoMoveOut = known[classMovedOut]
 		}
 		c := Case{History: hist.Gen(rt, pp), Filter: flt}
-		c.Bin = rapid.IntRange(0, binOneIn-1).Draw(rt, "bin") == 0 && os.Getenv("VERIF_PINT_BIN") != ""
+		// the classification must not depend on how the branches are called (the feature branch is
+		// never the base branch) nor on how pint is told about the base branch
+		nm := hist.GenBranches(rt)
+		c.Branches = &nm
+		c.Bin = rapid.IntRange(0, binOneIn-1).Draw(rt, "bin") == 0
+		// whether `pint ci` runs at all is decided from the branch names in cmd/pint: always take
+		// feature branches called <something>/<base> through the real binary
+		c.Bin = (c.Bin || nm.EndsInBase()) && os.Getenv("VERIF_PINT_BIN") != ""
 		v, class, err := run(c, ci)
 		if errors.Is(err, errHarness) {
 			rt.Fatalf("harness failure (not a verdict about pint): %v", err)
@@ -825,6 +841,10 @@ func TestPropHistory(t *testing.T) {
 		rec.Count("head_rules_unchanged", int64(v.unchanged))
 		if c.Bin {
 			rec.Count("binary_runs", 1)
+			rec.Count("binary_runs:base_via_"+nm.BaseVia, 1)
+			if nm.EndsInBase() {
+				rec.Count("binary_runs:feature_branch_ends_in_base_name", 1)
+			}
 		}
 		for _, f := range flagsOf(c) {
 			rec.Count("histories_with:"+f, 1)
